@@ -196,13 +196,6 @@ theorem indep_of_den {t : String} {ρ : QV.Env} {ty : Ty} {bits : List BExp} {sv
 
 /-! ### the right-hand sides that may read their own target -/
 
-/-- `e` may be assigned to `t` although it reads `t`: a tree of if-expressions whose tests are variables
-other than `t` and whose leaves are `t` itself or expressions that do not read `t` -/
-def guardedRhs (t : String) : PExp → Bool
-  | .ite (.name g) a b => (g != t && guardedRhs t a && guardedRhs t b) || !mentions t (.ite (.name g) a b)
-  | .name _ => true
-  | e => !mentions t e
-
 theorem guardedRhs_of_not_mentions (t : String) (e : PExp) (h : mentions t e = false) : guardedRhs t e = true := by
   unfold guardedRhs
   split <;> simp_all
@@ -370,19 +363,6 @@ theorem assign_step_g {ρ : QV.Env} {env : Front.Env} {σ : SEnv} (hinv : EnvInv
   refine ⟨sv, hs, i1, i2, fun n hn => ?_⟩
   rw [hfind n]
   simp [hn]
-
-/-- a statement of the guarded fragment: as `stmtOK`, but the right-hand side of an assignment may be a
-`guardedRhs` (it may read its own target through the else-leaves of if-expressions on other variables) -/
-def stmtOKg : Stmt → Bool
-  | .assign t e => goodName t && t != "_ret" && inFrag e && guardedRhs t e
-  | .ret e => inFrag e && !mentions "_ret" e
-  | .expr _ => true
-  | .unsupported _ => false
-
-/-- the guarded fragment of `C01_body_guarded` -/
-def guardedLine (p : Prog) : Bool :=
-  p.args.all (fun a => argTyOK a.2 && goodName a.1 && a.1 != "_ret") && argTyOK p.ret &&
-    p.body.all stmtOKg
 
 theorem stmtOKg_of_stmtOK (st : Stmt) (h : stmtOK st = true) : stmtOKg st = true := by
   cases st with
